@@ -89,6 +89,11 @@ def build(case):
     elif ctx == "reader-first":
         callers.append(Caller(1, [step_for(scheme, "a.test", "s1", "get")]))
         callers[1].start_first = True
+    elif ctx == "sibling-first":
+        # an upload of another caller to the same origin is under way when the victim arrives (on HTTP/2: same connection, the sibling's writes
+        # hold the connection's write lock while they are in flight)
+        callers.append(Caller(1, [step_for(scheme, "a.test", "s1", "post2")]))
+        callers[1].start_first = True
     elif ctx == "sibling2":
         callers.append(Caller(1, [step_for(scheme, "a.test", "s1", "post2")]))
         callers.append(Caller(2, [step_for(scheme, "b.test", "o2", "get")]))
@@ -158,6 +163,9 @@ async def epilogue(run):
                 resp = await cm.__aenter__()
                 held.append(cm)
                 probe.append(resp.status)
+                xt = [bytes(v) for n, v in resp.headers if bytes(n).lower() == b"x-tok"]
+                if xt != [f"probe{i}".encode()]:
+                    res.setdefault("probe_wrong", []).append((i, resp.status, xt))  # the answer to ANOTHER request (judged by C01's layer)
                 break
             except BaseException as exc:
                 if attempt == 0 and dead_idle and type(exc).__name__ in ("RemoteProtocolError", "ReadError", "WriteError", "LocalProtocolError"):
@@ -233,6 +241,9 @@ def judge(case, run, world, callers):
     if case.get("cancel"):
         c0 = callers[0]
         base["in_shield"] = bool(c0.in_shield_at_delivery if c0.delivery_site is not None else c0.in_shield_at_cancel)
+        from .conc import own_write_parked
+
+        base["own_write_parked"] = own_write_parked(c0)
         if c0.cancel_site and c0.delivery_site and c0.cancel_site[0] != c0.delivery_site[0]:
             base["requested_at"] = c0.cancel_site[0]
     what = (("[trio] " if case.get("runtime") == "trio" else "") + f"{case['kind']}/{case['context']}/{case['shape']} faults={case.get('faults')} cancel={case.get('cancel')} "
